@@ -1,7 +1,7 @@
 /-
   Lemmas.GenPlannerFx — the world the translated planner (`Generated/Code/PlannerFx.lean`: the effect unit
   made of `StrategyPlanner::{plan_file_async, compute_checksums_local, needs_update, mtime_matches,
-  plan_deletions}`, src/sync/strategy.rs) is run in, the abstraction maps to the handwritten engine model
+  plan_deletions}`, src/sync/strategy.rs, and `SyncEngine::plan_symlink`, src/sync/mod.rs) is run in, the abstraction maps to the handwritten engine model
   (`Engine/Model.lean`, `Engine/Caches.lean`), and the helper lemmas of `Props/GenPlannerFx.lean`.
 
   ## The world `PlanWorld`
@@ -17,7 +17,8 @@
                   (`LocalTransport::{exists, metadata, file_info}`, `Path::exists`, `std::fs::metadata`,
                   src/transport/local.rs:218-229, src/transport/mod.rs:107-120) all FOLLOW links
                   (`tokio::fs::try_exists` / `tokio::fs::metadata` = `stat`), so a symlink node answers as its
-                  target does;
+                  target does; `read_link` (src/transport/local.rs:977) does NOT follow: it answers the text of a
+                  symlink node (`linkAt`), `None` for every other node or nothing;
     * `dirInfo` — the size and mtime the inode of a directory reports (arbitrary: `file_info` succeeds on a directory);
     * `outside` — what a path text that is NOT below `root` resolves to (this is where the source files live;
                   the planner only asks `Path::exists` and `compute_file_checksum` about them);
@@ -251,6 +252,14 @@ def PlanWorld.entryOf (w : PlanWorld) (k : Engine.Path) (n : DNode) : FileEntry 
 def PlanWorld.scanOf (w : PlanWorld) (r : Rs.Path) : List FileEntry :=
   if r = w.root then w.dst.map (fun kv => w.entryOf kv.1 kv.2) else []
 
+/-- `LocalTransport::read_link` (src/transport/local.rs:977: `Ok(tokio::fs::read_link(path).await.ok())`): the link
+    text when the path ITSELF is a symlink (it does not follow), `None` for anything else or nothing.  Only destination
+    paths are asked; a path outside the destination answers `None` -/
+def PlanWorld.linkAt (w : PlanWorld) (p : Rs.Path) : Option Rs.Path :=
+  match w.relOf p with
+  | some k => (match w.dst.get? k with | some (.symlink t) => some t.toList | _ => none)
+  | none => none
+
 /-- a read-only operation: answers from the world, leaves it as it is -/
 def probe {W α : Type} (f : W → Except Rs.Err α) : Rs.M W α := ExceptT.mk (fun w => (f w, w))
 
@@ -265,6 +274,7 @@ def extOf : Ext PlanWorld where
   db_get_checksum _ p mtime size ty := probe fun w => .ok (w.dbSeen p mtime size ty)
   compute_file_checksum v p := probe fun w => w.cksumAt v p
   scan_streaming r := probe fun w => .ok (w.scanOf r)
+  t_read_link _ p := probe fun w => .ok (w.linkAt p)
 
 @[simp] theorem extOf_std_fs_metadata (p : Rs.Path) : extOf.std_fs_metadata p = probe fun w => w.metaAt p := rfl
 @[simp] theorem extOf_Scanner_new (p : Rs.Path) : extOf.Scanner_new p = p := rfl
@@ -277,6 +287,8 @@ def extOf : Ext PlanWorld where
 @[simp] theorem extOf_compute_file_checksum (v : IntegrityVerifier) (p : Rs.Path) :
     extOf.compute_file_checksum v p = probe fun w => w.cksumAt v p := rfl
 @[simp] theorem extOf_scan_streaming (r : Rs.Path) : extOf.scan_streaming r = probe fun w => .ok (w.scanOf r) := rfl
+
+@[simp] theorem extOf_t_read_link (t : Rs.Opaque) (p : Rs.Path) : extOf.t_read_link t p = probe fun w => .ok (w.linkAt p) := rfl
 
 /-! ### running `Rs.M` -/
 
@@ -750,5 +762,118 @@ theorem delsOf_abs (w : PlanWorld) (hw : CleanKeys w) (srcs : List FileEntry) :
     · simp only [Bool.not_false, ↓reduceIte, List.map_cons, ih', List.cons.injEq, and_true]
       simp [absTask, delTask, absAct, entryOf_path, relOf_join, compsOf_textOf kv.1 hk]
     · simpa using ih'
+
+/-! ### `SyncEngine::plan_symlink`, read at the level of the world -/
+
+/-- the entry `plan_symlink` builds in follow mode: the link's entry standing for the file it points to (size and
+    mtime of the target, no inode group, not a link any more) -/
+def followEntry (file : FileEntry) (m : Rs.Metadata) : FileEntry :=
+  { file with is_symlink := false, symlink_target := none, size := m.size, modified := m.mtime, inode := none,
+              nlink := 1 }
+
+/-- `simple(action)` of `plan_symlink` -/
+def simpleTask (w : PlanWorld) (file : FileEntry) (a : SyncAction) : SyncTask :=
+  { source := some file, dest_path := Rs.join w.root file.relative_path, action := a, source_checksum := none,
+    dest_checksum := none }
+
+/-- the preserve-mode decision from what `read_link` and `exists` answer for the destination path -/
+def preserveAct (w : PlanWorld) (file : FileEntry) : SyncAction :=
+  match w.linkAt (Rs.join w.root file.relative_path) with
+  | some t => if some t == file.symlink_target then .Skip else .Update
+  | none => if w.existsAt (Rs.join w.root file.relative_path) then .Update else .Create
+
+/-- the task `plan_symlink` returns -/
+def linkPlan (w : PlanWorld) (eng : SyncEngine) (file : FileEntry) (p : StrategyPlanner) (useDb : Bool) : SyncTask :=
+  match eng.symlink_mode with
+  | .Skip => simpleTask w file .Skip
+  | .Preserve => simpleTask w file (preserveAct w file)
+  | .Follow =>
+    match w.metaAt file.path with
+    | .ok m =>
+      if m.dir then simpleTask w file .Skip
+      else
+        { source := some (followEntry file m), dest_path := Rs.join w.root file.relative_path,
+          action := (planAt w p (followEntry file m) useDb).1,
+          source_checksum := (planAt w p (followEntry file m) useDb).2.1,
+          dest_checksum := (planAt w p (followEntry file m) useDb).2.2 }
+    | .error _ => simpleTask w file .Skip
+
+/-- CORE: `plan_symlink` on `extOf` — every engine view, planner, entry, world, database handle — returns `Ok` of
+    `linkPlan` and leaves the world as it was. -/
+theorem plan_symlink_run (eng : SyncEngine) (file : FileEntry) (w : PlanWorld) (p : StrategyPlanner)
+    (db : Option Rs.Opaque) :
+    runM (eng.plan_symlink extOf file w.root p db) w = (.ok (linkPlan w eng file p db.isSome), w) := by
+  unfold SyncEngine.plan_symlink linkPlan
+  cases hm : eng.symlink_mode with
+  | Skip => rfl
+  | Preserve =>
+    simp only [extOf_t_read_link, extOf_t_exists, runM_bind, runM_capture, runM_probe, runM_pure, preserveAct,
+      simpleTask, Rs.unwrap_or, Rs.UnwrapOr.unwrap_or, Rs.is_some]
+    cases hl : w.linkAt (Rs.join w.root file.relative_path) with
+    | none => cases he : w.existsAt (Rs.join w.root file.relative_path) <;> simp [he]
+    | some t => by_cases hq : (some t == file.symlink_target) = true <;> simp [hq]
+  | Follow =>
+    simp only [extOf_std_fs_metadata, runM_bind, runM_capture, runM_probe, runM_pure]
+    cases hmeta : w.metaAt file.path with
+    | error e => rfl
+    | ok m =>
+      cases hdir : m.dir
+      · simp only [Rs.is_dir, hdir, Bool.not_false, ↓reduceIte, Rs.modified, Rs.len, Rs.Len.len, Bool.false_eq_true]
+        rw [plan_file_async_run]
+        rfl
+      · simp [Rs.is_dir, hdir, simpleTask]
+
+/-! ### abstraction of symlink entries and their tasks -/
+
+/-- `SymlinkMode ↦ LinkMode` -/
+def absLinkMode : SymlinkMode → LinkMode
+  | .Preserve => .preserve
+  | .Follow => .follow
+  | .Skip => .skip
+
+/-- the link text of a scanned symlink entry (`symlink_target = read_link(path).ok()`, src/sync/scanner.rs) -/
+def linkText (file : FileEntry) : String := String.ofList (file.symlink_target.getD [])
+
+/-- what the source link resolves to, with the fields the generated `FileEntry` built by follow mode does not carry
+    (xattrs, inode group: `target_entry.inode = None`) set as `absMeta` sets them -/
+def absTarget : LinkTarget → LinkTarget
+  | .file d => .file { content := d.content, size := d.size, mtime := d.mtime, xattrs := [], ino := 0 }
+  | t => t
+
+/-- `FileEntry ↦ SEntry` for a symlink entry: the link text, and what `std::fs::metadata(file.path)` (which follows)
+    finds — the model's `tgt` -/
+def absLinkEntry (w : PlanWorld) (file : FileEntry) : SEntry :=
+  { rel := compsOf file.relative_path,
+    kind := .symlink (linkText file) (absTarget (w.stat file.path)),
+    size := file.size, excluded := false }
+
+/-- `SyncTask ↦ Task` for tasks planned from symlink entries.  What a task whose source is still a symlink
+    transfers depends on the mode the executor runs in: the link itself when preserving, nothing otherwise (skip mode;
+    follow mode with a dangling link or a link to a directory).  A source that is not a symlink (the dereferenced
+    entry of follow mode) is abstracted as by `absTask`. -/
+def absLinkTask (mode : SymlinkMode) (w : PlanWorld) (t : SyncTask) : Task :=
+  { act := absAct t.action,
+    rel := (w.relOf t.dest_path).getD [],
+    payload := match t.source with
+      | some s =>
+        if s.is_symlink then (match mode with | .Preserve => .symlink (linkText s) | _ => .nothing)
+        else if s.is_dir then .dir else .file (absMeta w s) s.nlink
+      | none => .nothing }
+
+theorem absLinkTask_eq_absTask (mode : SymlinkMode) (w : PlanWorld) (t : SyncTask)
+    (h : ∀ s, t.source = some s → s.is_symlink = false) : absLinkTask mode w t = absTask w t := by
+  unfold absLinkTask absTask
+  cases hs : t.source with
+  | none => rfl
+  | some s => simp [h s hs]
+
+theorem linkAt_join (w : PlanWorld) (rel : Rs.Path) :
+    w.linkAt (Rs.join w.root rel) =
+      match w.dst.get? (compsOf rel) with | some (.symlink t) => some t.toList | _ => none := by
+  simp [PlanWorld.linkAt, relOf_join]
+
+theorem existsAt_join (w : PlanWorld) (rel : Rs.Path) :
+    w.existsAt (Rs.join w.root rel) = (match w.resolve (compsOf rel) with | .dangling => false | _ => true) := by
+  simp [PlanWorld.existsAt, stat_join]
 
 end SyModel.Lemmas.GenPlannerFx
